@@ -6,6 +6,7 @@ import Crng.Rewriter
 import Crng.Tokens
 import Crng.Validate
 import Crng.Rx
+import Crng.Fnv
 /-! stateless one-line-in / one-line-out drivers -/
 namespace Drv.Misc
 open Drv
@@ -17,6 +18,14 @@ partial def lines (h : IO.FS.Stream) (f : List String → String) : IO Unit := d
 
 def fmt : List String → String
   | [b] => Crng.FloatFmt.fmt6Bits (UInt64.ofNat b.toNat!)
+  | _ => "bad-op"
+/-- C19: the FNV-1a 64 digest, and `validate.Ordered` run with that digest on a fresh map -/
+def fnvPairs : List String → List (Crng.Ord.Bytes × Nat)
+  | n :: t :: r => (arg n, t.toNat!) :: fnvPairs r
+  | _ => []
+def fnv : List String → String
+  | ["d", b] => toString (Crng.Fnv.fnv1a64 (arg b))
+  | "o" :: r => String.join ((Crng.Ord.run Crng.Fnv.fnv1a64 [] (fnvPairs r)).map fun b => if b then "1" else "0")
   | _ => "bad-op"
 def md5 : List String → String
   | [b] => hex (Crng.MD5.sum (arg b))
